@@ -175,6 +175,14 @@ def reply_tables(tier):
                 yield ("p:%s:%s:%s:%s" % ("+".join(s1), "+".join(s2), shared, first), tab)
     for tab in [(RM(fn="r0", handlers=("h", "h"), on="success"),), (RM(fn="r0", handlers=("h",), on="success"), RM(fn="r1", handlers=("g", "h"), on="success"))]:
         yield ("dup:" + str(len(tab)), tab)
+    # three and four methods claiming outcomes of ONE name: a third claim after a legal success/error pair is still a duplicate
+    if n < 3:
+        for k in (3, 4):
+            for ons in itertools.product(("success", "error", "always", None), repeat=k):
+                if k == 4 and (None in ons or "always" in ons):
+                    continue
+                tab = tuple(RM(fn="r%d" % j, handlers=("h",), on=o) for j, o in enumerate(ons))
+                yield ("one:%s" % "/".join(o or "-" for o in ons), tab)
 
 
 def rejected(o):
